@@ -584,3 +584,54 @@ def sp_nrows(I, st, args, kwargs):
 @spec('cols')
 def sp_ncols(I, st, args, kwargs):
     return VInt(args[0].cols)
+
+
+@spec('fn')
+def sp_fn(I, st, args, kwargs):
+    """fn("name", a, b, ...): the (real-valued) function symbol `name` applied to the flattened arguments - the same
+    symbol that `function_symbol` contracts attach to deterministic repository / library functions."""
+    name = args[0].concrete()
+    terms = [t for a in args[1:] for t in I.flatten_terms(a)]
+    F = z3.Function(name, *[t.sort() for t in terms], R_)
+    return VReal(F(*terms))
+
+
+CNT2 = z3.Function('cnt2', AII, AII, I_, I_, I_, I_)      # cnt2(A, B, x, y, m) = #{i < m : A[i] == x and B[i] == y}
+_x1 = z3.Int('x1')
+_y1 = z3.Int('y1')
+axiom('cnt2.base', z3.ForAll([_A, _B, _x1, _y1], CNT2(_A, _B, _x1, _y1, 0) == 0, patterns=[CNT2(_A, _B, _x1, _y1, 0)]), 'cnt2')
+axiom('cnt2.step', z3.ForAll([_A, _B, _x1, _y1, _m], z3.Implies(_m > 0, CNT2(_A, _B, _x1, _y1, _m) == CNT2(_A, _B, _x1, _y1, _m - 1)
+      + z3.If(z3.And(_A[_m - 1] == _x1, _B[_m - 1] == _y1), 1, 0)), patterns=[CNT2(_A, _B, _x1, _y1, _m)]), 'cnt2')
+lemma('cnt2_bounds',
+      z3.ForAll([_A, _B, _x1, _y1, _m], z3.Implies(_m >= 0, z3.And(CNT2(_A, _B, _x1, _y1, _m) >= 0, CNT2(_A, _B, _x1, _y1, _m) <= _m)),
+                patterns=[CNT2(_A, _B, _x1, _y1, _m)]),
+      [(lab, z3.ForAll([_A, _B, _x1, _y1], f)) for lab, f in _induction(
+          lambda n: z3.And(CNT2(_A, _B, _x1, _y1, n) >= 0, CNT2(_A, _B, _x1, _y1, n) <= n), _n)])
+
+
+@spec('cnt2')
+def sp_cnt2(I, st, args, kwargs):
+    a, b, x, y, m = args
+    return VInt(CNT2(a.arr, b.arr, to_term(x, 'int'), to_term(y, 'int'), to_term(m, 'int')))
+
+
+@spec('same_array')
+def sp_same_array(I, st, args, kwargs):
+    """identical sequence objects as values: same length and the same cell array (stronger than same_seq)."""
+    a, b = args
+    return VBool(z3.And(a.length == b.length, a.arr == b.arr))
+
+
+@spec('pair_score')
+def sp_pair_score(I, st, args, kwargs):
+    """score of the pair (a, b) on a coded frame under args: the selected heuristic on the two coded columns with the
+    label as conditioning side (= the `pure` value of get_importances_estimate_pairwise's contract)."""
+    a, b, df, ar = args
+    lab = ar.fields['label_column']
+    ca = I.stubs.frame_column(I, st, df, a).fields['values']
+    cb = I.stubs.frame_column(I, st, df, b).fields['values']
+    cl = I.stubs.frame_column(I, st, df, lab).fields['values']
+    c = I.equal(a, lab, st)
+    first = I.ite(c, cb, ca)
+    second = I.ite(c, cl, cb)
+    return sp_fn(I, st, [VStr('fn_rank'), first, second, ar.fields['heuristic'], ar.fields['mi_stratified_sampling_ratio']], {})
